@@ -168,6 +168,13 @@ INFO = {
              "add arbitrary pipelines and metric expressions under random layouts.",
         note="The text is produced by the harness from the AST; grammar coverage is that of the pools (no on/ignoring, label_replace, ip()).",
         ref="6/C05"),
+    "C17": dict(
+        text="The property is the two-state machine Call -> Return(ok|err). TLC enumerates all short byte strings over the bytes the "
+             "lexer/parser branch on and exports them; these, grammar-derived queries, their byte-level and forbidden mutations and "
+             "deliberately broken stage arguments are evaluated by Engine.Eval against a hostile data set under recover() and a watchdog; "
+             "TLC validates that every call returned ok or err (err for forbidden mutations) - a panic or hang event is unexplained.",
+        note="Enumeration bounded by alphabet and length; beyond that seeded mutation. Watchdog 15 s.",
+        ref="6/C17"),
 }
 
 NOT_YET = "no check registered yet in this revision (machinery under construction; see DESIGN.md section 6 for the planned model)"
